@@ -268,6 +268,9 @@ func genOption(c *Ctx) Case {
 func c18Gen(c *Ctx) {
 	// all 65536 boot numbers, exhaustively
 	for n := 0; n < 65536; n++ {
+		if !c.Mine(n) { // with shard processes each takes a residue class; together they cover all numbers
+			continue
+		}
 		c18EvalNumber(c, Case{"op": "number", "n": int64(n)})
 		if c.NFailures() >= 4 {
 			break
